@@ -1,5 +1,6 @@
 import XgcmModel.Model.UFunc
 import XgcmModel.Proofs.Pad
+import XgcmModel.Proofs.Binding
 import XgcmModel.Gen.Regex
 /-
   C11 — Grid ufuncs receive padded core dims last and return declared positions.
@@ -140,6 +141,44 @@ theorem arity_refused (g : GridM α) (sig : USig) (args : List (NDArr α))
     applyGridUfunc g sig args axis bw b f pb = .error .value := by
   unfold applyGridUfunc
   simp [h, bind, Except.bind, throw, throwThe, MonadExceptOf.throw]
+
+/-- **Dummy names are bound to real axes in order of first appearance** — by definition of the
+    model: the k-th distinct dummy name (reading the inputs left to right) is bound to the k-th
+    distinct real axis name of the `axis` argument; the call is refused when the argument counts, the
+    per-argument lengths or the numbers of distinct names differ. -/
+theorem binding_first_appearance (sigIn axis : List (List String)) (m : List (String × String))
+    (h : identifyAxes sigIn axis = .ok m) :
+    m = (dedup sigIn.flatten).zip (dedup axis.flatten) ∧ axis.length = sigIn.length ∧
+      (dedup sigIn.flatten).length = (dedup axis.flatten).length := by
+  unfold identifyAxes at h
+  split at h
+  · cases h
+  · rename_i h1
+    split at h
+    · cases h
+    · simp only [] at h
+      split at h
+      · cases h
+      · rename_i h3
+        cases h
+        exact ⟨rfl, Classical.not_not.mp h1, Classical.not_not.mp h3⟩
+
+open Xgcm.Binding in
+/-- **Every consistent binding is honoured**: if the `axis` argument is the image of the signature's
+    dummy names under ANY assignment σ of real axes to dummy names that sends different dummy names
+    to different axes (any number of inputs, any number of axes per input, any repetition pattern),
+    the call is accepted and every dummy name that occurs is bound to exactly σ of it. -/
+theorem binding_is_the_assignment (sigIn : List (List String)) (σ : String → String)
+    (hσ : InjOn σ sigIn.flatten) :
+    ∃ m, identifyAxes sigIn (sigIn.map (List.map σ)) = .ok m ∧
+      ∀ d ∈ sigIn.flatten, alookup d m = some (σ d) := by
+  refine ⟨(dedup sigIn.flatten).map (fun d => (d, σ d)), ?_, ?_⟩
+  · unfold identifyAxes
+    simp only [List.length_map, ne_eq, not_true_eq_false, if_false, zip_any_len, Bool.false_eq_true,
+      flatten_map_map, dedup_map σ _ hσ, zip_map_self]
+  · intro d hd
+    apply alookup_graph
+    exact mem_dedupAux [] _ d hd (by simp)
 
 /-- non-vacuity: binding by order of first appearance -/
 example : (identifyAxes [["a", "b"], ["b"]] [["X", "Y"], ["Y"]]).toOption = some [("a", "X"), ("b", "Y")] ∧
